@@ -395,6 +395,10 @@ Inductive case :=
 | KSet (ops : list sop) (seen : list obs)
 | KCache (limit : Z) (ops : list ccop) (seen : list obs)
 | KCacheW (limit slots interval : Z) (mv : bool) (ops : list xxop) (seen : list obs)
+(* a Take held in its loader while another goroutine Dels the SAME key: the store lands after the
+   Del (history A: the key holds the loaded value - what the code does) or the whole Take is taken to
+   precede it (history B: the key is gone); both are legal, anything else is not *)
+| KCacheEither (limit : Z) (opsA : list ccop) (seenA : list obs) (opsB : list ccop) (seenB : list obs)
 (* free-running goroutines after a sequential prefix *)
 | KLinMap (copyThr maxDel : Z) (pre : list mop) (evs : list (lev smop))
 | KLinQueue (size : Z) (pre : list qop) (evs : list (lev qop))
@@ -420,6 +424,7 @@ Definition agrees (c : case) : bool :=
   | KRing n ops seen => same false (r_run (r_new (Z.to_nat n)) ops) seen
   | KSet ops seen => same true (set_run [] ops) seen
   | KCache limit ops seen => same true (cc_run (c_new limit) ops) seen
+  | KCacheEither limit opsA seenA _ _ => same true (cc_run (c_new limit) opsA) seenA
   | KCacheW limit slots interval mv ops seen =>
     same true (cwx_run (cw_new limit slots interval mv) [] ops) seen
   | KLinMap ct md pre evs =>
@@ -462,6 +467,11 @@ Definition probe_ok (limit : Z) (ops : list ccop) (seen : list obs) : bool :=
   let ks := leading_gets (rev ops) in
   if nodup_z ks then hits (firstn (length ks) (rev (filter nonunit seen))) <=? limit else true.
 
+(* the cache judgement: the stamp reference, and never more than the limit *)
+Definition cache_prop_ok (limit : Z) (ops : list ccop) (seen : list obs) : bool :=
+  same true (sc_run (s_new limit) ops) seen &&
+  (if 0 <? limit then probe_ok limit ops seen && sizes_ok limit ops (filter nonunit seen) else true).
+
 (* the property, on the implementation's own observations *)
 Definition prop_ok (c : case) : bool :=
   match c with
@@ -479,9 +489,8 @@ Definition prop_ok (c : case) : bool :=
   | KSet ops seen =>
     (* Contains/Count/Keys as determined by the last Add/Remove of each key *)
     same true (set_spec_run [] ops) seen
-  | KCache limit ops seen =>
-    same true (sc_run (s_new limit) ops) seen &&
-    (if 0 <? limit then probe_ok limit ops seen && sizes_ok limit ops (filter nonunit seen) else true)
+  | KCache limit ops seen => cache_prop_ok limit ops seen
+  | KCacheEither limit opsA seenA opsB seenB => cache_prop_ok limit opsA seenA || cache_prop_ok limit opsB seenB
   | KCacheW limit slots interval mv ops seen =>
     if (1 <=? slots) && (1 <=? interval) && forallb xx_judged ops then
       same true (refwx_run interval (mkRefW (s_new limit) []) ops) seen &&
@@ -518,6 +527,7 @@ Definition model_obs (c : case) : mobs :=
   | KRing n ops _ => MO (visible false (r_run (r_new (Z.to_nat n)) ops))
   | KSet ops _ => MO (visible true (set_run [] ops))
   | KCache limit ops _ => MO (visible true (cc_run (c_new limit) ops))
+  | KCacheEither limit opsA _ _ _ => MO (visible true (cc_run (c_new limit) opsA))
   | KCacheW limit slots interval mv ops _ => MO (visible true (cwx_run (cw_new limit slots interval mv) [] ops))
   | KWindowGate size iv t0 ig pre _ tr adds _ post _ =>
     let w1 := w_final (rw_new (Z.to_nat size) iv t0 ig) pre in
